@@ -63,7 +63,12 @@ def main():
         ],
         "checks": checks,
         "not_applicable": na,
-        "notes": "See DESIGN.md. Exit 0 = held; exit 1 + VIOLATION line = violation; exit 2 = harness error (never believed as a pass).",
+        "notes": ("See DESIGN.md (sections 11-15: as built, defects found and fixed, false alarms corrected, sensitivity tables, seeded changes). "
+                  "Exit 0 = held; exit 1 + VIOLATION line = violation; exit 2 = harness error (never a pass). "
+                  "Every tier first replays corpus/<ID>/*.json (minimised reproductions of every defect found). "
+                  "Self-tests: selftest/determinism.py <ID> (same seeds, 4 configurations of hash seed x worker count, per-run digests must match); "
+                  "selftest/mutants.py <ID> (hand-written mutants + sub-agent seeded changes under seeded/, applied to scratch worktrees, VERIF_REPO=<wt>); "
+                  "selftest/sim_vs_real.py (C20 simulator vs real loopback sockets). known_findings.json: 'fixed' entries suppress nothing; one 'known' entry (C20/W1 bool-vs-number conflation in the library diff)."),
     }
     json.dump(m, open(os.path.join(HERE, "MANIFEST.json"), "w"), indent=1)
     print("wrote MANIFEST.json: %d checks, %d n/a" % (len(checks), len(na)))
